@@ -416,7 +416,8 @@ def u_overlay_enter_exit(c):
     else:
         handlers = SymSeq("handlers", n, lambda i: SVal(z3.Const("never", Val)))
         handlers.term = handlers_t
-    ov = mk_obj(it, O, "BaseOverlay", handlers=handlers)
+    # the empty overlay is built by the real constructor (its attributes are exactly those __init__ sets)
+    ov = it.call(it.get_global(O, "BaseOverlay"), [], {}) if empty else mk_obj(it, O, "BaseOverlay", handlers=handlers)
     had = c.choose(2)
     if had:
         prev_pairs = SymSeq("old_pairs", z3.Int("m"), lambda i: None)
@@ -431,8 +432,12 @@ def u_overlay_enter_exit(c):
         return
     if empty:
         c.prove("enter/no-handlers-is-a-noop", var.value is prev and col is None)
+        if c.choose(2, "handler-added-inside-the-block"):
+            # `with ol: ol.tap(...)`: a handler added while the (empty) overlay is active was never installed; leaving the block
+            # must still work and leave the context as it was
+            it.call(it.getattr(ov, "add"), [SymObj("late-handler", Val.ref(z3.IntVal(c.new_id())), attrs={"selector": SymObj("s", Val.ref(z3.IntVal(c.new_id())))})], {})
         st, _ = run(it, it.getattr(ov, "__exit__"), [None, None, None])
-        c.prove("exit/no-handlers-is-a-noop", st == "ok" and var.value is prev)
+        c.prove("exit/no-handlers-is-a-noop", st == "ok" and var.value is prev, note=f"{st}")
         return
     cur = var.value
     c.prove("enter/installs-new-collection", isinstance(cur, Obj) and cur.cls is HC and cur is not prev and col is cur)
